@@ -56,6 +56,7 @@ def dispatch (line : String) : String :=
   | "pexclfault" :: rest => (handlePFault false rest).getD "BAD-CASE\t0"
   | "pexclfile" :: rest => (handlePExclFile rest).getD "BAD-CASE\t0"
   | "jres" :: rest => (handleJRes rest).getD "BAD-CASE\t0"
+  | "jplain" :: rest => (handleJPlain rest).getD "BAD-CASE\t0"
   | "juniqbig" :: rest => (handleJUniqBig rest).getD "BAD-CASE\t0"
   | "juniqstall" :: rest => (handleJUniqBig rest).getD "BAD-CASE\t0"
   | "jlog" :: rest => (handleJLog rest).getD "BAD-CASE\t0"
